@@ -2,6 +2,7 @@ package godi
 
 import (
 	"context"
+	"errors"
 	"fmt"
 	"maps"
 	"reflect"
@@ -308,7 +309,7 @@ func (sc *collection) doBuild(ctx context.Context) (Provider, error) {
 			return nil, &BuildError{
 				Phase:   "cleanup",
 				Details: "failed to clean up partially created provider",
-				Cause:   closeErr,
+				Cause:   errors.Join(err, closeErr),
 			}
 		}
 
@@ -327,7 +328,7 @@ func (sc *collection) doBuild(ctx context.Context) (Provider, error) {
 			return nil, &BuildError{
 				Phase:   "cleanup",
 				Details: "failed to clean up partially created provider",
-				Cause:   closeErr,
+				Cause:   errors.Join(err, closeErr),
 			}
 		}
 
